@@ -126,6 +126,12 @@ func (fw *FileWriter) openExistingFile() error {
 	headerBuf := make([]byte, FileHeaderSize)
 	if _, err := io.ReadFull(file, headerBuf); err != nil {
 		file.Close()
+		if errors.Is(err, io.EOF) || errors.Is(err, io.ErrUnexpectedEOF) {
+			// The creation of this file was interrupted before its header was complete. Nothing can
+			// have been stored in it yet (blocks are only written after the header and the name),
+			// so start it again instead of failing every write to this swamp forever.
+			return fw.createNewFile()
+		}
 		return err
 	}
 
@@ -133,6 +139,12 @@ func (fw *FileWriter) openExistingFile() error {
 	if err := fw.header.Deserialize(headerBuf); err != nil {
 		file.Close()
 		return err
+	}
+
+	if info, err := file.Stat(); err == nil && info.Size() < fw.header.DataStartOffset() {
+		// same interruption, a little later: the swamp name behind the header is incomplete
+		file.Close()
+		return fw.createNewFile()
 	}
 
 	fw.file = file
@@ -197,6 +209,26 @@ func (fw *FileWriter) endOfCompleteBlocks() (int64, error) {
 		pos = next
 	}
 	return pos, nil
+}
+
+// IsIncompleteFile reports whether filePath exists but is shorter than its header and swamp name,
+// i.e. its creation was interrupted before anything could be stored in it.
+func IsIncompleteFile(filePath string) bool {
+	file, err := os.Open(filePath)
+	if err != nil {
+		return false
+	}
+	defer file.Close()
+	headerBuf := make([]byte, FileHeaderSize)
+	if _, err := io.ReadFull(file, headerBuf); err != nil {
+		return errors.Is(err, io.EOF) || errors.Is(err, io.ErrUnexpectedEOF)
+	}
+	header := &FileHeader{}
+	if err := header.Deserialize(headerBuf); err != nil {
+		return false
+	}
+	info, err := file.Stat()
+	return err == nil && info.Size() < header.DataStartOffset()
 }
 
 // WriteEntry adds an entry to the buffer and flushes if necessary
